@@ -101,4 +101,10 @@ def connResult (codes : List Nat) (result : String) (resultCode : Nat) : List Vi
 def ioSurfaced (raised : List String) (reported : String) : List Viol :=
   if raised.isEmpty || raised.contains reported then [] else ["C17 handle-reports-an-io-error-the-transport-never-raised"]
 
+/-- C01, send side: when END_STREAM goes out on a stream, everything the application had submitted for it
+    before has gone out: frames leave in order, nothing is dropped from the middle.
+    `submitted`: octets accepted by `send_data` so far; `sent`: octets of DATA written so far. -/
+def bodyEnd (submitted sent : Nat) : List Viol :=
+  if sent ≠ submitted then ["C01 stream-ended-on-the-wire-with-another-length-than-submitted"] else []
+
 end H2V.Spec.Verdict
